@@ -10,6 +10,19 @@ theorem C06_tie_source : Generated.sizesU = sizesU ∧ Generated.indicesU = indi
     Generated.intBaseKeys = groupIndicesAnalysis.baseKeys :=
   ⟨Tie.consts_tie.2.2.2.2.1, Tie.consts_tie.2.2.2.2.2.1, Tie.consts_tie.2.2.1, Tie.consts_tie.2.2.2.2.2.2.2.2.2.2.2.2.2⟩
 
+/-- tie to today's source, operator table: the model's `assertedIntValues` is the function translated on this run from the
+    Python AST of `_get_asserted_int_values`, on the two universal sets the analysis uses (and on any duplicate-free one) -/
+theorem C06_tie_operator_table (c : Cmp) (n : Nat) :
+    assertedIntValues c n sizesU = Generated.intAssertedValues c n Generated.sizesU ∧
+    assertedIntValues c n indicesU = Generated.intAssertedValues c n Generated.indicesU := by
+  rw [Tie.consts_tie.2.2.2.2.1, Tie.consts_tie.2.2.2.2.2.1]
+  exact ⟨Tie.int_asserted_tie c n sizesU Tie.int_universes_nodup.1, Tie.int_asserted_tie c n indicesU Tie.int_universes_nodup.2⟩
+
+/-- tie to today's source, lattice: group-size / group-index sets are joined and met with Python's `|` and `&` -/
+theorem C06_tie_lattice (a b : NatSet) :
+    groupIndicesAnalysis.dom.union a b = Generated.intUnion a b ∧ groupIndicesAnalysis.dom.inter a b = Generated.intInter a b :=
+  ⟨(Tie.set_ops_tie a b).1, (Tie.set_ops_tie a b).2.1⟩
+
 /-- leaf layer, field as first operand, all six operators, every constant: the true set lists exactly the
     values of the universe on which the comparison holds, the false set exactly the others -/
 theorem C06_leaf_exact (c : Cmp) (n : Nat) (U : NatSet) (v : Nat) (hv : v ∈ U) :
